@@ -80,7 +80,7 @@
   `queue_never_stuck`, `queue_empty_forgotten`).
 -/
 import BacVerif.Lemmas.TsmC04Silent
-import BacVerif.Model.Iocb
+import BacVerif.Lemmas.IocbQueue
 namespace BacVerif.C04
 open BacVerif.Tsm
 set_option linter.unusedSimpArgs false
@@ -577,6 +577,41 @@ theorem deadline_le (cfg : Cfg) (s : Sap) (k : Key) {t : Txn} {d : Nat}
   have := Nat.mul_le_mul_right (maxT cfg * 1000) this
   omega
 
+/-- decidable form of `NotOverdue` -/
+def notOverdue (s : Sap) (k : Key) : Bool :=
+  match findTxn k s.clients with
+  | none => true
+  | some t =>
+    match t.body.timer with
+    | some d => decide (s.now ≤ d)
+    | none => false
+
+theorem notOverdue_spec {s : Sap} {k : Key} (h : notOverdue s k = true) : NotOverdue s k := by
+  intro t ht
+  unfold notOverdue at h
+  rw [ht] at h
+  dsimp only at h
+  cases hd : t.body.timer with
+  | none => rw [hd] at h; cases h
+  | some d =>
+    rw [hd] at h
+    exact ⟨d, rfl, by simpa using h⟩
+
+/-- **gone_after_deadline** (termination in virtual time).  Silence, a prompt
+    scheduler, no exception: once the clock has passed the deadline computed at
+    the start of the silence, the transaction `k` is no longer listed. -/
+theorem gone_after_deadline (hpos : cfg.TimeoutsPos) (k : Key) (es : List Event) {s : Sap} (hinv : Inv s)
+    (hsil : ∀ e ∈ es, Silent e = true) (hnr : noRaise (run cfg s es).2 = true)
+    (hpr : promptRun cfg k s es = true) (hno : notOverdue s k = true)
+    (hlate : deadline cfg s k < (run cfg s es).1.now) :
+    ∀ t ∈ (run cfg s es).1.clients, t.key ≠ k := by
+  apply findTxn_none.1
+  cases hf : findTxn k (run cfg s es).1.clients with
+  | none => rfl
+  | some t =>
+    have := silence_deadline hpos k es hinv hsil hnr hpr (notOverdue_spec hno) (by rw [hf]; rfl)
+    omega
+
 /-- **arrival_extends_once.**  A frame arrival (ANY header from ANY peer),
     with k = (peer, invoke ID of the frame): the timer of the client
     transaction `k` — if it survives — is what it was or is re-armed to at most
@@ -647,14 +682,14 @@ theorem time_bound (hpos : cfg.TimeoutsPos) (k : Key) (es : List Event) {s : Sap
 
 /-- **exactly_one.**  A generation of `k`: the request event, then ANY events
     `mid` (not a new request for `k`) — the adversarial network —, then a
-    silent stretch `sil` in which k's timer fires as often as its rank at the
-    beginning of the silence says (at most 2·retries + 1 times).  Then
+    silent stretch `sil` at the end of which `k` is no longer listed
+    (guaranteed by `silence_terminates` after enough expiries, by
+    `gone_after_deadline` once the clock has passed the deadline).  Then
       * at most one confirmation for `k` reached the application in all of it,
-      * `k` is not listed at the end, nor any timer for it,
       * if `k` was still pending when the silence began, exactly one
-        confirmation reached the application, during the silence;
-      * the state machines handed up exactly one confirmation (or `k` was
-        never listed: refused or answered at once by the request step). -/
+        confirmation reached the application, during the silence (the Abort);
+      * the state machines handed up exactly one confirmation for `k` — or
+        `k` was never listed (refused, or answered at once by the request step). -/
 theorem exactly_one (hpos : cfg.TimeoutsPos) {s : Sap} (hinv : Inv s) (peer : Peer) (service : Nat)
     (data : Bytes) (chosen : Option Nat) (k : Key) (mid sil : List Event)
     (hno : noReqFor cfg k (step cfg s (.request peer service data chosen)).1 mid = true)
@@ -662,13 +697,12 @@ theorem exactly_one (hpos : cfg.TimeoutsPos) {s : Sap} (hinv : Inv s) (peer : Pe
     let s1 := (step cfg s (.request peer service data chosen)).1
     let s2 := (run cfg s1 mid).1
     let s3 := (run cfg s2 sil).1
-    noRaise (run cfg s2 sil).2 = true → mu cfg s2 k ≤ dueCount cfg k s2 sil →
+    (∀ t ∈ s3.clients, t.key ≠ k) →
       nConfFor k ((step cfg s (.request peer service data chosen)).2 ++ (run cfg s1 mid).2 ++
         (run cfg s2 sil).2) ≤ 1 ∧
-      (∀ t ∈ s3.clients, t.key ≠ k) ∧
       (liveC s2 k = 1 → nConfFor k (run cfg s2 sil).2 = 1) ∧
       smapConfs cfg k s1 mid + nConfFor k (run cfg s2 sil).2 = liveC s1 k := by
-  intro s1 s2 s3 hnr hdue
+  intro s1 s2 s3 hterm
   have hinv1 : Inv s1 := C11.inv_step hpos hinv _
   have hinv2 : Inv s2 := C11.inv_run hpos mid hinv1
   have hreq : nConfFor k (step cfg s (.request peer service data chosen)).2 + liveC s1 k ≤ 1 :=
@@ -676,14 +710,260 @@ theorem exactly_one (hpos : cfg.TimeoutsPos) {s : Sap} (hinv : Inv s) (peer : Pe
   have hmid : nConfFor k (run cfg s1 mid).2 + liveC s2 k ≤ liveC s1 k := at_most_one hpos k mid hinv1 hno
   have hsx : nConfFor k (run cfg s2 sil).2 + liveC s3 k = liveC s2 k :=
     exactly_one_under_silence hpos k sil hinv2 hsil
-  have hterm : ∀ t ∈ s3.clients, t.key ≠ k := silence_terminates hpos k sil hinv2 hsil hnr hdue
   have h3 : liveC s3 k = 0 := liveC_zero.2 (findTxn_none.2 hterm)
   have hsm : smapConfs cfg k s1 mid + liveC s2 k = liveC s1 k := smap_exact hpos k mid hinv1 hno
-  refine ⟨?_, hterm, ?_, ?_⟩
+  refine ⟨?_, ?_, ?_⟩
   · rw [nConfFor_append, nConfFor_append]
     have := liveC_le_one s2 k
     omega
   · intro h; omega
   · omega
 
+/-- **exactly_one_in_bounded_time.**  The combination: request, ANY events,
+    then silence under a prompt scheduler without exception; as soon as the
+    clock has passed `deadline` (≤ armed timer + 2·retries·T, `deadline_le`):
+    `k` is gone, at most one confirmation reached the application overall, and
+    exactly one if `k` was still pending when the silence began. -/
+theorem exactly_one_in_bounded_time (hpos : cfg.TimeoutsPos) {s : Sap} (hinv : Inv s) (peer : Peer)
+    (service : Nat) (data : Bytes) (chosen : Option Nat) (k : Key) (mid sil : List Event)
+    (hno : noReqFor cfg k (step cfg s (.request peer service data chosen)).1 mid = true)
+    (hsil : ∀ e ∈ sil, Silent e = true) :
+    let s1 := (step cfg s (.request peer service data chosen)).1
+    let s2 := (run cfg s1 mid).1
+    let s3 := (run cfg s2 sil).1
+    noRaise (run cfg s2 sil).2 = true → promptRun cfg k s2 sil = true → notOverdue s2 k = true →
+    deadline cfg s2 k < s3.now →
+      (∀ t ∈ s3.clients, t.key ≠ k) ∧
+      nConfFor k ((step cfg s (.request peer service data chosen)).2 ++ (run cfg s1 mid).2 ++
+        (run cfg s2 sil).2) ≤ 1 ∧
+      (liveC s2 k = 1 → nConfFor k (run cfg s2 sil).2 = 1) := by
+  intro s1 s2 s3 hnr hpr hnov hlate
+  have hinv2 : Inv s2 := C11.inv_run hpos mid (C11.inv_step hpos hinv _)
+  have hgone : ∀ t ∈ s3.clients, t.key ≠ k := gone_after_deadline hpos k sil hinv2 hsil hnr hpr hnov hlate
+  have h := exactly_one hpos hinv peer service data chosen k mid sil hno hsil hgone
+  exact ⟨hgone, h.1, h.2.1⟩
+
+/-! ## non-vacuity: concrete traces (kernel evaluation of the model) -/
+
+def exCfg : Cfg :=
+  { BacVerif.Gen.TsmDefaults.cfg with retries := 1, seg := .both, maxSegs := some 16, maxApdu := 50 }
+
+theorem exCfg_pos : exCfg.TimeoutsPos := ⟨by decide, by decide, by decide⟩
+
+/-- a request, total silence: one retry, then the locally generated Abort -/
+def exSilence : List Event :=
+  [.request 0 200 [1, 2, 3] none, .tick 3000000, .timeout false 0 1, .tick 3000000, .timeout false 0 1]
+
+/-- the trace with a retry and a final abort: request sent twice, exactly one
+    confirmation (Abort, reason noResponse = 65), nothing left; the rank after
+    the request is 3 = 2·retries + 1 and two expiries of the own timer fired
+    (retries + 1: the tight value for an unsegmented request) -/
+example :
+    let r := run exCfg Sap.init exSilence
+    r.2.length = 3 ∧ nConfFor ⟨0, 1⟩ r.2 = 1 ∧
+    r.2.getLast? = some (.confirm 0 (mkAbort false 1 abortNoResponse)) ∧
+    r.1.clients = [] ∧ r.1.now = 6000000 ∧ noRaise r.2 = true ∧
+    mu exCfg (step exCfg Sap.init (.request 0 200 [1, 2, 3] none)).1 ⟨0, 1⟩ = 3 ∧
+    dueCount exCfg ⟨0, 1⟩ Sap.init exSilence = 2 ∧
+    noReqFor exCfg ⟨0, 1⟩ (step exCfg Sap.init (.request 0 200 [1, 2, 3] none)).1 exSilence.tail = true ∧
+    promptRun exCfg ⟨0, 1⟩ Sap.init exSilence = true := by
+  decide +kernel
+
+/-- hypotheses of `exactly_one_in_bounded_time` met by that trace followed by a
+    long tick (mid = [], sil = the four silent events + 10 s): the deadline
+    3 s + 2·6 s = 15 s is passed at 16 s; `k` was pending when the silence began -/
+example :
+    let s1 := (step exCfg Sap.init (.request 0 200 [1, 2, 3] none)).1
+    let sil := exSilence.tail ++ [.tick 10000000]
+    (∀ e ∈ sil, Silent e = true) ∧ noRaise (run exCfg s1 sil).2 = true ∧
+    promptRun exCfg ⟨0, 1⟩ s1 sil = true ∧ notOverdue s1 ⟨0, 1⟩ = true ∧
+    deadline exCfg s1 ⟨0, 1⟩ = 15000000 ∧ (run exCfg s1 sil).1.now = 16000000 ∧ liveC s1 ⟨0, 1⟩ = 1 ∧
+    noReqFor exCfg ⟨0, 1⟩ s1 [] = true := by
+  decide +kernel
+
+/-- a segmented ComplexAck of three segments (window 2), the last one duplicated:
+    two segment acks go out, ONE confirmation carrying the three payloads, the
+    duplicate is ignored (the transaction is gone: `late_frame_ignored`) -/
+def exSegAck : List Event :=
+  [.request 0 200 [9] none,
+   .frame 0 { ty := 3, seg := true, mor := true, seq := 0, win := 2, invokeId := 1, service := 200, data := [1] },
+   .frame 0 { ty := 3, seg := true, mor := true, seq := 1, win := 2, invokeId := 1, service := 200, data := [2] },
+   .frame 0 { ty := 3, seg := true, mor := false, seq := 2, win := 2, invokeId := 1, service := 200, data := [3] },
+   .frame 0 { ty := 3, seg := true, mor := false, seq := 2, win := 2, invokeId := 1, service := 200, data := [3] }]
+
+example :
+    let r := run exCfg Sap.init exSegAck
+    nConfFor ⟨0, 1⟩ r.2 = 1 ∧ r.1.clients = [] ∧
+    r.2.getLast? = some (.confirm 0 { ty := 3, seg := true, mor := true, seq := 0, win := 2, invokeId := 1,
+                                      service := 200, data := [1, 2, 3] }) ∧
+    smapConfs exCfg ⟨0, 1⟩ (step exCfg Sap.init (.request 0 200 [9] none)).1 exSegAck.tail = 1 := by
+  decide +kernel
+
+/-- **tight_segmented.**  The worst case of the expiry count: a request of three
+    segments, every segment acknowledged, the reply never comes.  The first
+    expiry (AWAIT_CONFIRMATION, retry 0 < 1) restarts the whole request
+    (SEGMENTED_REQUEST, segmentRetryCount = 0), the second retransmits the first
+    segment, the third aborts: retries + 2 = 3 expiries — one more than the
+    "retries + 1" of DESIGN §7 — and still within rank = 2·retries + 1 = 3. -/
+def exTight : List Event :=
+  [.request 0 200 (List.replicate 100 7) none,
+   .frame 0 (mkSegAck false true 1 0 2), .frame 0 (mkSegAck false true 1 2 2),
+   .tick 3000000, .timeout false 0 1, .tick 1500000, .timeout false 0 1, .tick 1500000, .timeout false 0 1]
+
+example :
+    let s3 := (run exCfg Sap.init (exTight.take 3)).1
+    mu exCfg s3 ⟨0, 1⟩ = 3 ∧ dueCount exCfg ⟨0, 1⟩ s3 (exTight.drop 3) = 3 ∧
+    (run exCfg Sap.init (exTight.take 8)).1.clients.length = 1 ∧
+    (run exCfg Sap.init exTight).1.clients = [] ∧
+    nConfFor ⟨0, 1⟩ (run exCfg Sap.init exTight).2 = 1 ∧ noRaise (run exCfg Sap.init exTight).2 = true := by
+  decide +kernel
+
+/-- the hypothesis `noRaise` is needed: a local maxSegmentsAccepted = 1 cannot be
+    encoded, every transmission raises, the retry counter restarts — after six
+    expiries the transaction is still listed with retry count 0 -/
+example :
+    let bad : Cfg := { exCfg with maxSegs := some 1 }
+    let es : List Event := [.request 0 200 [1] none,
+      .tick 3000000, .timeout false 0 1, .tick 3000000, .timeout false 0 1, .tick 3000000, .timeout false 0 1,
+      .tick 3000000, .timeout false 0 1, .tick 3000000, .timeout false 0 1, .tick 3000000, .timeout false 0 1]
+    (run bad Sap.init es).1.clients.map (fun t => t.body.retry) = [0] ∧
+    noRaise (run bad Sap.init es).2 = false := by
+  decide +kernel
+
 end BacVerif.C04
+
+/-! # the IOCB layer (Model.Iocb) -/
+namespace BacVerif.C04.Io
+open BacVerif.Iocb
+
+theorem run_nil (s : St) : Iocb.run s [] = (s, []) := rfl
+theorem run_cons_fst (s : St) (e : Ev) (es : List Ev) :
+    (Iocb.run s (e :: es)).1 = (Iocb.run (Iocb.step s e).1 es).1 := rfl
+theorem run_cons_snd (s : St) (e : Ev) (es : List Ev) :
+    (Iocb.run s (e :: es)).2 = (Iocb.step s e).2 ++ (Iocb.run (Iocb.step s e).1 es).2 := rfl
+
+theorem run_keeps (id : Nat) : ∀ (es : List Ev) (s : St),
+    Keeps id s.iocbs (Iocb.run s es).1.iocbs (Iocb.run s es).2 := by
+  intro es
+  induction es with
+  | nil => intro s; exact Keeps.refl _ _
+  | cons e es ih =>
+    intro s
+    rw [run_cons_fst, run_cons_snd]
+    exact (step_keeps s e id).trans (ih _)
+
+/-- **complete_once.**  Over ANY sequence of request_io / application aborts /
+    confirmations of any kind from any address / deferred calls, from any
+    state: callbacks of IOCB `id` fired + [finished before] = [finished after]. -/
+theorem callbacks_exact (s : St) (es : List Ev) (id : Nat) :
+    nCb id (Iocb.run s es).2 + fin s.iocbs id = fin (Iocb.run s es).1.iocbs id :=
+  (run_keeps id es s).once
+
+/-- … from the start: the callback of an IOCB has fired exactly once if the
+    IOCB is finished (COMPLETED or ABORTED), and not at all otherwise. -/
+theorem complete_once (es : List Ev) (id : Nat) :
+    nCb id (Iocb.run St.init es).2 = fin (Iocb.run St.init es).1.iocbs id ∧
+    nCb id (Iocb.run St.init es).2 ≤ 1 := by
+  have h := callbacks_exact St.init es id
+  have h0 : fin St.init.iocbs id = 0 := by simp [fin, St.init]
+  have h1 := fin_le_one (Iocb.run St.init es).1.iocbs id
+  omega
+
+/-- **finished_is_final** (complete / abort idempotent after completion).  A
+    finished IOCB keeps state, response and error whatever happens next —
+    a second confirmation, an application abort, anything — and its callback
+    does not fire again. -/
+theorem finished_is_final (s : St) (es : List Ev) (id : Nat) {io : Iocb} (h : s.iocbs[id]? = some io)
+    (ht : io.st.terminal = true) :
+    (∃ io', (Iocb.run s es).1.iocbs[id]? = some io' ∧ io'.st = io.st ∧ io'.resp = io.resp ∧ io'.err = io.err) ∧
+    nCb id (Iocb.run s es).2 = 0 := by
+  have hk := run_keeps id es s
+  refine ⟨hk.frozen io h ht, ?_⟩
+  have h1 : fin s.iocbs id = 1 := by simp [fin, h, ht]
+  have h2 := fin_le_one (Iocb.run s es).1.iocbs id
+  have := hk.once
+  omega
+
+/-- the application aborting a finished IOCB: no callback, nothing changes on the IOCB -/
+theorem abort_after_done_noop (s : St) (id tok : Nat) {io : Iocb} (h : s.iocbs[id]? = some io)
+    (ht : io.st.terminal = true) :
+    nCb id (appAbort s id tok).2 = 0 ∧
+    ∃ io', (appAbort s id tok).1.iocbs[id]? = some io' ∧ io'.st = io.st ∧ io'.resp = io.resp ∧ io'.err = io.err := by
+  have hk := appAbort_keeps s id tok id
+  have h1 : fin s.iocbs id = 1 := by simp [fin, h, ht]
+  have h2 := fin_le_one (appAbort s id tok).1.iocbs id
+  have := hk.once
+  exact ⟨by omega, hk.frozen io h ht⟩
+
+/-- **queue_advances / queue_empty_forgotten** (the confirmation).  A
+    confirmation of the ack or error class from `addr`, whose queue object `q`
+    has the active IOCB `id`: the queue object is released (no active IOCB,
+    idle) and its `_trigger` is deferred; if nothing was waiting the queue is
+    forgotten (`del queue_by_address[addr]`).
+    `hfirst`: `q` is the object its serial names (serials are unique). -/
+theorem queue_released {s : St} {addr : Addr} {q : Q} {id : Nat} (kind : Conf) (tok : Nat)
+    (hq : lookupQ s.queues addr = some q) (ha : q.active = some id) (hk : kind ≠ .other)
+    (hfirst : findQ s.queues q.qid = some q) :
+    let s' := (Iocb.step s (.confirm addr kind tok)).1
+    q.qid ∈ s'.deferred ∧
+    (q.queue = [] → lookupQ s'.queues addr = none) ∧
+    (∀ q', findQ s'.queues q.qid = some q' → q'.active = none ∧ q'.busy = false) :=
+  appComplete_released kind (some tok) hq ha hk hfirst
+
+/-- **queue_advances** (the deferred trigger).  The queue object is idle and
+    the PENDING IOCB `id` is at the head of its waiting list: running the
+    deferred `_trigger` makes `id` the active IOCB (state ACTIVE), takes it off
+    the list, and sends its request — exactly that. -/
+theorem queue_advances {s : St} {qid : Nat} {q : Q} {p id : Nat} {rest : List (Nat × Nat)} {io : Iocb}
+    {dl : List Nat} (hd : s.deferred = qid :: dl)
+    (hq : findQ s.queues qid = some q) (hb : q.busy = false) (hqueue : q.queue = (p, id) :: rest)
+    (hio : s.iocbs[id]? = some io) (hst : io.st = .pending) (hf : io.fails = false)
+    (hu : io.unconf = false) :
+    let r := Iocb.step s .runDeferred
+    r.2 = [.sent id] ∧
+    findQ r.1.queues qid = some { q with busy := true, active := some id, queue := rest } ∧
+    r.1.iocbs[id]? = some { io with inq := none, st := .active } := by
+  simp only [Iocb.step, hd]
+  exact trigger_launches (s := { s with deferred := dl }) hq hb hqueue hio hst hf hu
+
+/-! ### non-vacuity -/
+
+/-- three requests to one destination, one to another; the first is answered
+    with an ack, the deferred trigger sends the second; the application aborts
+    the (queued) third; the second is answered with an error; a stray third
+    confirmation from that address finds nothing active -/
+def exIo : List Ev :=
+  [.submit 7 0 false false, .submit 7 0 false false, .submit 7 0 false false, .submit 8 0 false false,
+   .confirm 7 .ack 100, .runDeferred, .abort 2 55, .confirm 7 .err 101, .runDeferred, .confirm 7 .ack 102,
+   .confirm 8 .ack 103, .runDeferred]
+
+example :
+    let r := Iocb.run St.init exIo
+    r.2 = [.sent 0, .sent 3, .callback 0 .completed (some 100) none, .sent 1,
+           .callback 2 .aborted none (some 55), .callback 1 .aborted none (some 101),
+           .callback 3 .completed (some 103) none] ∧
+    r.1.queues = [] ∧ r.1.deferred = [] ∧
+    r.1.iocbs.map (fun io => io.st) = [.completed, .aborted, .aborted, .completed] ∧
+    nCb 0 r.2 = 1 ∧ nCb 1 r.2 = 1 ∧ nCb 2 r.2 = 1 ∧ nCb 3 r.2 = 1 := by
+  decide +kernel
+
+/-- hypotheses of `queue_released` / `queue_advances` met on the way -/
+example :
+    let s4 := (Iocb.run St.init (exIo.take 4)).1
+    let s5 := (Iocb.run St.init (exIo.take 5)).1
+    (∃ q, lookupQ s4.queues 7 = some q ∧ q.active = some 0 ∧ findQ s4.queues q.qid = some q ∧ q.queue ≠ []) ∧
+    (∃ q dl io, s5.deferred = 0 :: dl ∧ findQ s5.queues 0 = some q ∧ q.busy = false ∧
+       q.queue = (0, 1) :: [(0, 2)] ∧ s5.iocbs[1]? = some io ∧ io.st = .pending ∧
+       io.fails = false ∧ io.unconf = false) := by
+  refine ⟨⟨_, rfl, rfl, rfl, by decide⟩, ⟨_, _, _, rfl, rfl, rfl, rfl, rfl, rfl, rfl, rfl⟩⟩
+
+/-- the known, NOT claimed behaviour (DESIGN §7 C11 "Noted"): `_app_complete`
+    matches the active IOCB by address only — after the APPLICATION aborted the
+    active IOCB #0, the reply to its request (token 100) completes IOCB #1 -/
+example :
+    (Iocb.run St.init [.submit 7 0 false false, .submit 7 0 false false, .abort 0 55, .runDeferred,
+                       .confirm 7 .ack 100]).2 =
+      [.sent 0, .callback 0 .aborted none (some 55), .sent 1, .callback 1 .completed (some 100) none] := by
+  decide +kernel
+
+end BacVerif.C04.Io
